@@ -584,7 +584,7 @@ func (vm *Thread) run() {
 			if !err.IsUndefined() {
 				vm.pop()
 				vm.rethrow(err, vm.BuildStackTracePrepend(stackTrace))
-				return
+				continue
 			}
 
 			vm.replace(result)
@@ -602,7 +602,7 @@ func (vm *Thread) run() {
 			if !err.IsUndefined() {
 				vm.pop()
 				vm.rethrow(err, vm.BuildStackTracePrepend(stackTrace))
-				return
+				continue
 			}
 
 			vm.replace(result)
@@ -613,7 +613,7 @@ func (vm *Thread) run() {
 			if !err.IsUndefined() {
 				vm.pop()
 				vm.rethrow(err, vm.BuildStackTracePrepend(stackTrace))
-				return
+				continue
 			}
 
 			vm.replace(result)
